@@ -127,7 +127,9 @@ func runC04(c *core.Ctx) {
 			c.Cover("forgotten-family", famShort(k))
 		}
 		// every second subset: the process does not link the payload message types of the forgotten types either
-		p := sim.Proc{Forget: sub, NoProto: si%2 == 1}
+		// every third subset: the process has leaf decoders for those types, which decline
+		p := sim.Proc{Forget: sub, NoProto: si%2 == 1, Declining: si%3 == 2}
+		c.Cover("forgotten-types-have-a-declining-leaf-decoder", fmt.Sprint(p.Declining))
 		c.Cover("payload-message-types-linked", fmt.Sprint(!p.NoProto))
 		var out, out2 []byte
 		var su obs.Shape
